@@ -340,9 +340,7 @@ Blocks(Fam, Sc) ==
            \* shrink down the tree, so valid three-level files exist.
            LET r == NodeDoms(2, <<0, 3, 5>>, <<255, 254>>, <<"S", "M", "E">>, <<0>>, <<255>>, <<"size">>, <<1>>, <<0>>)
                c(ar) == NodeDoms(ar, <<0, 2, 3>>, <<255, 254>>, <<"S", "M">>, <<0>>, <<255>>, <<"sizem1">>, <<1>>, <<0>>)
-           IN IF Sc = 0 THEN << [tag |-> "wide", sa |-> 1, ma |-> 1, doms |-> r \o c(1) \o c(1)] >>
-              ELSE << [tag |-> "wide", sa |-> 1, ma |-> 1, doms |-> r \o c(1) \o c(1)],
-                      [tag |-> "wide", sa |-> 2, ma |-> 1, doms |-> r \o c(2) \o c(1)] >>
+           IN << [tag |-> "wide", sa |-> 1, ma |-> 1, doms |-> r \o c(1) \o c(1)] >>
       [] Fam = "bias" ->
            \* CBiasing children (STag < Arity), pointers and CPtrMax relative to
            \* the bias, CLen clamps (in the 1400-byte class CLen = 1 bites).
